@@ -9,6 +9,7 @@ import (
 	"strconv"
 	"strings"
 	"sync"
+	"syscall"
 	"time"
 )
 
@@ -132,6 +133,8 @@ func runChild(from, to int, stall time.Duration, stats map[string]int) ([]string
 		return nil, from, "died"
 	}
 	cmd.Stderr = nil
+	// a child never outlives its parent (the parent may be killed by the check's own timeout)
+	cmd.SysProcAttr = &syscall.SysProcAttr{Pdeathsig: syscall.SIGKILL}
 	if err := cmd.Start(); err != nil {
 		return nil, from, "died"
 	}
